@@ -248,7 +248,9 @@ func (r *ClientPeerRef) Send(ctx context.Context, msg []byte) (_ *signaling_rpc.
 
 			// Stream with remote was re-opened.
 			if sessionSeqno == nil || *sessionSeqno != *tkr.open {
-				txed = false
+				// Our message may still be queued in tkr.out: the tracker keeps
+				// it across a re-open and transmits it again.
+				txed = tkr.out != nil && tkr.out.Seqno == seqno
 				sessionSeqno = tkr.open
 			}
 
